@@ -458,6 +458,12 @@ def run_cases(ctx, n: int, focus: str):
             # ---- correspondence
             try:
                 snap, table, ctors = snapshot_for(f, src)
+                # domain of rewriteCaptured_attrs_preserves (Props/C04Attr.lean): no helper inserted as a lambda, no Enum prefix,
+                # no data-class constructor; whether the table is used at all
+                inside = "(lam " not in snap and "(expr " not in table and ctors == "()"
+                ctx.dist["C04Attr domain: " + ("inside" if inside else "outside (helper / Enum prefix / constructor)")] += 1
+                if inside and "(const " in table:
+                    ctx.dist["C04Attr domain: inside, attribute table used"] += 1
                 reqs.append(("capture", [snap, table, ctors, enc(src)]))
                 keep.append((body, enc(_strip_sugar_free(lam, src, f))))
             except Unsupported:
